@@ -43,7 +43,7 @@ if [ $d_head -eq 0 ] && [ $d_patch -ne 0 ] && [ "$fails" = "FAIL: datasource_sys
  "property": "$pid",
  "source": "independent sub-agent given only the property text and a scratch worktree",
  "confirmed": {
-  "head": "$(git -C /repo rev-parse --short HEAD)",
+  "head": "$(git -C "$wt" rev-parse --short HEAD)",
   "demo_exit_on_head": $d_head,
   "demo_exit_on_patched": $d_patch,
   "suite_pass": $npass,
